@@ -29,20 +29,20 @@ type Ctx struct {
 	Known []*KnownFinding
 
 	// accumulated
-	Results      []*JobResult
-	Findings     []*Finding
-	Inconclusive []string
-	Validated    int
+	Results            []*JobResult
+	Findings           []*Finding
+	Inconclusive       []string
+	Validated          int
 	ValidationMismatch []string
-	Samples      []any
-	Bounds       map[string]any
-	Assumptions  []string
-	Notes        []string
-	Programs     int
-	knownSeen    map[string]int
-	LoadTime     time.Duration
-	NativeTime   time.Duration
-	ExploreTime  time.Duration
+	Samples            []any
+	Bounds             map[string]any
+	Assumptions        []string
+	Notes              []string
+	Programs           int
+	knownSeen          map[string]int
+	LoadTime           time.Duration
+	NativeTime         time.Duration
+	ExploreTime        time.Duration
 }
 
 func (c *Ctx) Quick() bool { return c.Tier != "thorough" }
@@ -259,7 +259,7 @@ func (c *Ctx) runNativeChunked(run *NativeRunner, cases []ReplayCase) ([]ReplayO
 func (c *Ctx) addViolation(jr *JobResult, v *symx.Violation, o *ReplayOutcome) {
 	j := jr.Job
 	f := &Finding{Property: c.Prop, Label: j.Label, Entry: j.Entry, Args: j.Args, PkgPath: j.PkgPath, Kind: v.Kind,
-		AssertID: v.ID, Msg: v.Msg, Vars: v.Model, Strs: v.Strs, Meta: j.Meta, Native: o}
+		AssertID: v.ID, Msg: v.Msg, Vars: v.Model, Strs: v.Strs, Meta: j.Meta, Native: o, Obs: v.Obs}
 	if o != nil {
 		switch v.Kind {
 		case "assert":
@@ -408,6 +408,9 @@ func (c *Ctx) Finish() int {
 		if !f.Confirmed {
 			c.inconclusive("UNCONFIRMED counterexample (does not reproduce natively; encoding or stub suspect): %s %s%v assert=%s %s vars=%v native=%+v",
 				f.Label, f.Entry, f.Args, f.AssertID, trunc(f.Msg, 200), f.Vars, f.Native)
+			if len(f.Obs) > 0 {
+				fmt.Printf("  engine observations: %v\n", f.Obs)
+			}
 			continue
 		}
 		if k := c.matchKnown(f); k != nil {
@@ -477,29 +480,29 @@ func (c *Ctx) Finish() int {
 		"distinct_nontrivial":           nontrivial,
 		"rule": "one evaluation = one feasible path of a harness through the real code (a class of inputs characterised by its path condition); " +
 			"non-trivial = the path took at least one solver-decided branch and reached an assertion; paths are distinct by construction (DFS over decisions)",
-		"harness_instances":  len(c.Results),
-		"programs":           c.Programs,
-		"functions_encoded":  fenc,
-		"functions_encoded_n": len(fnames),
-		"ssa_instructions_encoded": ninstr,
+		"harness_instances":         len(c.Results),
+		"programs":                  c.Programs,
+		"functions_encoded":         fenc,
+		"functions_encoded_n":       len(fnames),
+		"ssa_instructions_encoded":  ninstr,
 		"ssa_instructions_executed": steps,
-		"max_path_steps":     maxSteps,
-		"bounds":             c.Bounds,
-		"assertions_discharged": asserts,
-		"assertions_by_id":   assertIDs,
+		"max_path_steps":            maxSteps,
+		"bounds":                    c.Bounds,
+		"assertions_discharged":     asserts,
+		"assertions_by_id":          assertIDs,
 		"queries": map[string]int{"branch": q.Branch, "assert": q.Assert, "assume": q.Assume, "concretize": q.Concretize,
 			"witness_models": q.Witness, "sat": q.Sat, "unsat": q.Unsat, "unknown": q.Unknown},
-		"solver":        map[string]any{"binary": "z3 -in (incremental, push/pop)", "version": solverVersion("z3"), "seconds": solverT.Seconds()},
-		"stubs_hit":     stubs,
-		"witnesses":     witnesses,
-		"path_ends":     ends,
-		"assume_pruned": pruned,
-		"known_findings_seen": ks,
-		"inconclusive":  c.Inconclusive,
+		"solver":                map[string]any{"binary": "z3 -in (incremental, push/pop)", "version": solverVersion("z3"), "seconds": solverT.Seconds()},
+		"stubs_hit":             stubs,
+		"witnesses":             witnesses,
+		"path_ends":             ends,
+		"assume_pruned":         pruned,
+		"known_findings_seen":   ks,
+		"inconclusive":          c.Inconclusive,
 		"validation_mismatches": c.ValidationMismatch,
-		"load_seconds":  c.LoadTime.Seconds(),
-		"notes":         c.Notes,
-		"exhaustive":    false,
+		"load_seconds":          c.LoadTime.Seconds(),
+		"notes":                 c.Notes,
+		"exhaustive":            false,
 	}
 	ev := Evidence{PropertyID: c.Prop, Tier: c.Tier, Seed: c.Seed, Level: "model_checking", Coverage: cov,
 		Assumptions: c.Assumptions, WallS: time.Since(c.Start).Seconds(), Violations: nviol}
